@@ -5,6 +5,7 @@ package field
 
 import (
 	"bytes"
+	"encoding/hex"
 	"encoding/json"
 	"fmt"
 	"math/big"
@@ -54,6 +55,10 @@ func TestVerifBattery(t *testing.T) {
 	for _, c := range f.Cases {
 		if c.Kind == "field-limbs" {
 			vFieldLimbs(t, c)
+			continue
+		}
+		if c.Kind == "field-reduce" {
+			vFieldReduce(t, c)
 			continue
 		}
 		if c.Kind != "field-battery" {
@@ -304,5 +309,28 @@ func vFieldLimbs(t *testing.T, c vCase) {
 	want.Mod(want, vM)
 	if val(res.E).Cmp(want) != 0 || vValOf(res.E).Cmp(vM) >= 0 {
 		bad("(%s, %s): stored %x (value %x), want value %x canonical", c.A, c.B, vValOf(res.E), val(res.E), want)
+	}
+}
+
+// vFieldReduce replays a raw 256-bit word (a solver model of a failed Reduce obligation), as 32 big-endian bytes, through
+// FromBytesWithReduce (the exported entry to Reduce), against math/big.
+func vFieldReduce(t *testing.T, c vCase) {
+	raw, err := hex.DecodeString(c.A)
+	if err != nil || len(raw) != 32 {
+		return
+	}
+	v := new(big.Int).SetBytes(raw)
+	wantFlag := uint64(0)
+	if v.Cmp(vM) < 0 {
+		wantFlag = 1
+	}
+	want := new(big.Int).Mod(v, vM)
+	var in [32]byte
+	copy(in[:], raw)
+	e, red := New().FromBytesWithReduce(in)
+	var out [32]byte
+	want.FillBytes(out[:])
+	if red != wantFlag || !bytes.Equal(e.Bytes(), out[:]) {
+		t.Errorf("MISMATCH kind=field-reduce: FromBytesWithReduce(%s) = %x flag %d, want %x flag %d", c.A, e.Bytes(), red, out, wantFlag)
 	}
 }
